@@ -124,11 +124,14 @@ def postprocess(src, dst):
                 # than GRACE_MS afterwards: requests other sessions sent after that come after the session's end.
                 bound = end_bound
                 # srv: the SERVER ended this session - the specification must have a reason for that
+                # (never before the record was sent: the harness' final round trip on a session that is long dead
+                #  is sent after everything else)
                 for i in range(start, cands[-1] + 1):
                     if none(log[i]):
-                        log[i]["ret"] = bound          # what ended the session had been handled by then as well
+                        log[i]["ret"] = max(bound, log[i].get("inv", 0))   # what ended the session had been handled by then as well
                 for n_, idx in enumerate(reversed(cands)):
-                    m_ = {"op": "closed", "c": cid, "srv": True, "inv": log[idx].get("inv", 0) if log else 0, "ret": bound}
+                    inv_ = log[idx].get("inv", 0) if log else 0
+                    m_ = {"op": "closed", "c": cid, "srv": True, "inv": inv_, "ret": max(bound, inv_)}
                     if n_ == 0:
                         m_["last"] = True
                     log.insert(idx + 1, m_)
